@@ -7,13 +7,30 @@ import json, os, re
 HERE = os.path.dirname(os.path.dirname(os.path.abspath(__file__)))
 PROPS = os.path.join(HERE, "lean", "SPProofs", "Properties")
 EXTRA = {
-    # property -> [(module, theorem, status, guard)]
+    # property -> [(module, theorem, status)]: theorems that live outside Properties/<id>.lean
+    "C01": [("SPProofs.Pipeline.VarLists", "SPModel.Pipeline.variableLists_eq", "full"),
+            ("SPProofs.Pipeline.VarLists", "SPModel.Pipeline.ranges_tile", "full"),
+            ("SPProofs.Pipeline.VarLists", "SPModel.Pipeline.mem_ranges_some", "full"),
+            ("SPProofs.Pipeline.VarLists", "SPModel.Pipeline.mem_trialNumbers", "full"),
+            ("SPProofs.Pipeline.MeaningRuns", "SPModel.Pipeline.exclude_meaning", "full"),
+            ("SPProofs.Pipeline.MeaningRuns", "SPModel.Pipeline.pin_meaning", "full"),
+            ("SPProofs.Pipeline.MeaningRuns", "SPModel.Pipeline.atMost_meaning", "full"),
+            ("SPProofs.Pipeline.MeaningRuns", "SPModel.Pipeline.atLeast_meaning", "full"),
+            ("SPProofs.Pipeline.MeaningRuns", "SPModel.Pipeline.exactlyInARow_meaning", "full"),
+            ("SPProofs.Pipeline.MeaningRuns", "SPModel.Pipeline.exactlyK_meaning", "full"),
+            ("SPProofs.Pipeline.MeaningBasic", "SPModel.Pipeline.consistency_meaning", "full"),
+            ("SPProofs.Pipeline.MeaningBasic", "SPModel.Pipeline.sequential_meaning", "full"),
+            ("SPProofs.Pipeline.MeaningBasic", "SPModel.Pipeline.sustain_meaning", "full"),
+            ("SPProofs.Pipeline.MeaningBasic", "SPModel.Pipeline.derivationSimple_meaning", "full"),
+            ("SPProofs.Pipeline.MeaningCross", "SPModel.Pipeline.crossStep_meaning", "full"),
+            ("SPProofs.Pipeline.Assemble", "SPModel.Pipeline.applyConstraint_meaning", "full"),
+            ("SPProofs.Pipeline.Assemble", "SPModel.Pipeline.buildBackend_meaning", "full")],
 }
 USES = {
     # properties whose check also relies on theorems proved in other property files
     "C28": ["C10"],
-    "C01": ["C10", "C11", "C12"], "C02": ["C09", "C01", "C10", "C11", "C12"], "C03": ["C10", "C11", "C12"],
-    "C04": ["C13"], "C05": ["C13"], "C06": ["C13"], "C07": ["C01", "C13"], "C08": ["C10", "C13"],
+    "C01": ["C02", "C03", "C10", "C11", "C12"], "C02": ["C09", "C03", "C01", "C10", "C11", "C12"], "C03": ["C10", "C11", "C12"],
+    "C04": ["C05", "C13"], "C05": ["C13"], "C06": ["C05", "C13"], "C07": ["C02", "C03", "C01", "C05", "C13"], "C08": ["C03", "C10", "C13"],
     "C16": ["C26", "C14"], "C25": ["C26"], "C17": ["C01"],
 }
 idx = {}
@@ -35,6 +52,12 @@ for fn in sorted(os.listdir(PROPS)):
         status = "partial" if name.endswith("_partial") else "full"
         thms.append({"name": ns + "." + name, "status": status})
     idx[pid] = {"modules": ["SPProofs.Properties." + pid], "theorems": thms}
+for pid, items in EXTRA.items():
+    e = idx.setdefault(pid, {"modules": [], "theorems": []})
+    for mod, name, status in items:
+        if mod not in e["modules"]:
+            e["modules"].append(mod)
+        e["theorems"].append({"name": name, "status": status})
 for pid, others in USES.items():
     if pid in idx or any(o in idx for o in others):
         e = idx.setdefault(pid, {"modules": [], "theorems": []})
